@@ -46,6 +46,16 @@ using namespace verif;
 
 static FILE *g_out = nullptr; // child: pipe to the parent
 
+// Stack of the child.  8 MiB (the usual default of a process) unless C01_STACK_MB says otherwise: a larger stack hides
+// recursion whose depth grows with the input (one frame per character of a 60 KiB text node), which is a crash for a
+// client of the library.  Unbounded recursion (unit cycles) exhausts any stack.
+static unsigned long stackBytes()
+{
+    const char *e = getenv("C01_STACK_MB");
+    unsigned long mb = (e != nullptr) ? strtoul(e, nullptr, 10) : 8;
+    return (mb == 0 ? 8 : mb) * 1024UL * 1024UL;
+}
+
 static void tok(const std::string &s)
 {
     fputs(s.c_str(), g_out);
@@ -184,7 +194,7 @@ static void runOne(const std::string &c, const std::function<void(const std::str
     if (pid == 0) {
         close(fds[0]);
         struct rlimit rl;
-        rl.rlim_cur = rl.rlim_max = 64UL * 1024 * 1024;
+        rl.rlim_cur = rl.rlim_max = stackBytes();
         setrlimit(RLIMIT_STACK, &rl);
         int efd = open(errPath.c_str(), O_WRONLY | O_CREAT | O_TRUNC, 0600);
         if (efd >= 0) {
@@ -253,7 +263,7 @@ static void runBatch(const std::vector<std::string> &cases, const std::function<
         if (pid == 0) {
             close(fds[0]);
             struct rlimit rl;
-            rl.rlim_cur = rl.rlim_max = 64UL * 1024 * 1024;
+            rl.rlim_cur = rl.rlim_max = stackBytes();
             setrlimit(RLIMIT_STACK, &rl);
             int efd = open(errPath.c_str(), O_WRONLY | O_CREAT | O_TRUNC, 0600);
             if (efd >= 0) {
